@@ -68,11 +68,11 @@ def size : P → Nat
   | .alt a b => size a + size b + 1
   | .rep a => size a + 1 | .opt a => size a + 1 | .not a => size a + 1 | .fatal a => size a + 1
   | .lexeme a => size a + 1 | .conv _ a => size a + 1 | .convIf _ a => size a + 1
-  | .ignore a => size a + 1 | .named a => size a + 1
+  | .ignore a => size a + 1 | .named a => size a + 1 | .map _ a => size a + 1
   | .plus a => 2 * size a + 3
   | .sep a s => 2 * size a + size s + 5
   | .list o a s c => size o + 2 * size c + 2 * size a + size s + 9
-  | .uint _ => 7 | .int _ => 10
+  | .uint _ => 7 | .int _ => 10 | .float => 18
   | _ => 1
 
 theorem size_desugar {p : P} (hs : IsSugar p) : size (desugar p) < size p := by
@@ -221,10 +221,17 @@ theorem parse_total (g : G) : ∀ n p, size p ≤ n → WF0 p → ∀ sk, SkWF s
       | ok v r => exact ⟨_, .namedOk hx⟩
       | err ft => exact ⟨_, .namedErr hx⟩
     | ref i => exact absurd hw (by simp [WF0])
+    | map mm a =>
+      simp only [size] at hp
+      obtain ⟨x, hx⟩ := ih a (by omega) hw sk hsk inp
+      cases x with
+      | ok v r => exact ⟨_, .mapOk hx⟩
+      | err ft => exact ⟨_, .mapErr hx⟩
     | plus a => exact sugarCase trivial
     | sep a b => exact sugarCase trivial
     | list o a b c => exact sugarCase trivial
     | uint m => exact sugarCase trivial
     | int m => exact sugarCase trivial
+    | float => exact sugarCase trivial
 
 end Fcppt.C02
